@@ -8,7 +8,7 @@ from .c01 import parse, ser
 
 ID = "C09"
 RULE = ("well-formed generated calendars (G3: all component kinds, zoned DTSTART/DTEND/DUE/RECURRENCE-ID/RDATE/EXDATE, multi-period FREEBUSY, custom VTIMEZONE "
-        "with a per-case unique TZID, subcomponents interleaved with properties) and the library-canonicalised fixtures, each rewritten by seeded "
+        "with a per-case unique TZID, subcomponents interleaved with properties; in every third case the VTIMEZONEs are moved behind the components that use them) and the library-canonicalised fixtures, each rewritten by seeded "
         "compositions of 1-7 rewrites: LF for CRLF, leading UTF-8 BOM (bytes), str instead of bytes, re-folding (unfold, then CRLF+SP or CRLF+HTAB between "
         "random characters incl. right after the name and inside multi-octet text), trailing blank lines, random letter case of BEGIN/END, component "
         "names, property names and parameter names; both providers; the R8 observation (incl. zone key and utcoffset) and the re-serialisation of every "
@@ -34,7 +34,9 @@ def run(ctx):
         else:
             # backslashes in parameter values would let the known placeholder finding turn the next parameter NAME into value text
             g = G(rng, hostile=rng.choice((0.0, 0.05, 0.2)), param_hostile=False)
-            ctx.check(("model", prov, g.calendar(), rng.choice((None, rng.randrange(10 ** 6))), rng.randrange(10 ** 9)), "G3")
+            late = n % 3 == 0
+            ctx.check(("model", prov, g.calendar(), rng.choice((None, rng.randrange(10 ** 6))), rng.randrange(10 ** 9)) + (("late-zones",) if late else ()),
+                      "G3-late-zones" if late else "G3")
 
 
 def randcase(rng, s):
@@ -110,10 +112,39 @@ def rewrite(rng, text, kinds):
     return data
 
 
+def zones_last(text):
+    """move every VTIMEZONE block that is a direct child of the outermost component behind its other children (RFC 5545 prescribes no order);
+    every parse starts from a fresh provider, so a zone used before its definition reads the same way in the base text and in every variant"""
+    lines = [l for l in re.sub(r"\r\n[ \t]", "", text).split("\r\n") if l]
+    keep, moved, depth, inside = [], [], 0, False
+    for l in lines:
+        u = l.upper()
+        if u.startswith("BEGIN:"):
+            depth += 1
+            if depth == 2 and u == "BEGIN:VTIMEZONE":
+                inside = True
+        (moved if inside else keep).append(l)
+        if u.startswith("END:"):
+            if depth == 2 and inside:
+                inside = False
+            depth -= 1
+    if not moved or len(keep) < 2 or not keep[-1].upper().startswith("END:"):
+        return None
+    from ..gen.model import fold
+    return "".join(fold(l) + "\r\n" for l in keep[:-1] + moved + keep[-1:])
+
+
 def check_case(ctx, case):
     if case[0] == "model":
-        _, prov, model, inter, rseed = case
+        _, prov, model, inter, rseed = case[:5]
         text = emit(model, random.Random(inter) if inter is not None else None)
+        if len(case) > 5:
+            moved = zones_last(text)
+            if moved is None:
+                ctx.count("late-zones:no-zone-to-move")
+            else:
+                ctx.count("late-zones:moved")
+                text = moved
     else:
         _, prov, data, rseed = case
         # fixtures contain non-canonical folds (CR CR LF, blank-line folds): use the library-canonicalised form as base text
